@@ -303,6 +303,8 @@ def parse_report(text):
             rep["env"] = [] if v == "empty" else [unhex(a) for a in v.split(",")]
         elif k == "cwd":
             rep["cwd"] = unhex(v) if v != "?" else None
+        elif k == "execfn":
+            rep["execfn"] = unhex(v)
         elif k == "ids":
             rep["ids"] = {a.split("=")[0]: int(a.split("=")[1]) for a in v.split(" ")}
         elif k == "sig":
